@@ -155,6 +155,29 @@ def work_thermo(arg):
         out['ev'] += 1
         if not o.ok or abs(o.value - ref) > 1e-9 * abs(ref):
             v('static-property', f'{meth}() = {o.value if o.ok else o.brief()} but CoolProp gives {ref}', ref, o.value if o.ok else o.brief(), {'method': meth})
+    # the environment of the numerical libraries: with warnings turned into errors (python -W error, pytest) and floating-point errors raised
+    # (numpy.seterr(all='raise')) a getter returns what it returns by default - or raises; it does not silently return something else
+    import warnings
+    T_env = tt + 0.5 * (tc - tt)
+    for meth, args in (('t_triple', ()), ('t_critical', ()), ('molar_mass', ()), ('p_triple', ()), ('p_critical', ()), ('saturation_pressure', (T_env,)),
+                       ('liquid_density', (T_env,)), ('gas_density', (T_env,)), ('surface_tension', (T_env,)), ('enthalpy_vaporisation', (T_env,))):
+        dflt = core.call(getattr(a, meth), *args)
+        for env_name in ('warnings as errors', 'numpy errors raised'):
+            # (called directly: core.call silences warnings around the call)
+            with warnings.catch_warnings():
+                try:
+                    if env_name == 'warnings as errors':
+                        warnings.simplefilter('error')
+                        strict = getattr(a, meth)(*args)
+                    else:
+                        with numpy.errstate(all='raise'):
+                            strict = getattr(a, meth)(*args)
+                except Exception:       # noqa  (raising in a strict environment is that environment's doing)
+                    strict = None
+            out['ev'] += 1
+            out['nt'] += 1
+            if dflt.ok and strict is not None and strict != dflt.value:
+                v('environment-dependent-value', f'{meth}{args} = {strict!r} with {env_name}, {dflt.value!r} by default', dflt.value, strict, {'method': meth, 'environment': env_name})
     prev = None
     for f in fracs:
         T = tt + f * (tc - tt)
